@@ -440,7 +440,12 @@ func (idx *IVFIndex) Kind() VectorIndexKind {
 }
 
 // Trained returns true if the index has been trained
+//
+// Thread-safety: Acquires read lock (Train sets the flag under the write lock)
 func (idx *IVFIndex) Trained() bool {
+	idx.mu.RLock()
+	defer idx.mu.RUnlock()
+
 	return idx.trained
 }
 
